@@ -5,7 +5,7 @@ write_* / read_* calls: dense sweep, septet-length boundaries, multiples of 128^
 import json
 import os
 
-from harness import core
+from harness import core, gen
 
 
 def pair(v):
@@ -98,7 +98,11 @@ def run(ctx):
                         x = -x if neg else x
                         r = {"v": pair(i), "k": k, "p": p, "signed": signed, "neg": neg, "w": [], "idx": -1, "back_equal": False, "err": ""}
                         try:
-                            w = MBXML.write_sfloatvar(x, p) if signed else MBXML.write_ufloatvar(x, p)
+                            if (i + k) % 5 == 4:
+                                with gen.ambient_numeric_context():
+                                    w = MBXML.write_sfloatvar(x, p) if signed else MBXML.write_ufloatvar(x, p)
+                            else:
+                                w = MBXML.write_sfloatvar(x, p) if signed else MBXML.write_ufloatvar(x, p)
                             r["w"] = list(w)
                             val, idx = (MBXML.read_sfloatvar if signed else MBXML.read_ufloatvar)(w + b"\xaa\x55", 0)
                             r["idx"], r["back_equal"] = idx, bool(val == x)
@@ -144,7 +148,13 @@ def run(ctx):
         rl = {"kind": "lat", "micro": pair(mlat), "back_equal": False, "err": ""}
         ro = {"kind": "lon", "micro": pair(mlon), "back_equal": False, "err": ""}
         try:
-            wl, wo = MBXML.write_latitude(lat), MBXML.write_longitude(lon)
+            if k % 4 == 3:
+                # one coordinate pair in four is written by an application with numeric settings of its own (a decimal context of
+                # five digits rounding up, numpy raising on floating-point errors): the four octets do not depend on them
+                with gen.ambient_numeric_context():
+                    wl, wo = MBXML.write_latitude(lat), MBXML.write_longitude(lon)
+            else:
+                wl, wo = MBXML.write_latitude(lat), MBXML.write_longitude(lon)
             tid, value = [(0x66, (wl, wo)), (0x51, (wl, wo, 12.5)), (0x69, (wl, wo, -3.25))][k % 3]
             xml = xml_view(tid, value)
             rl["back_equal"] = bool(float(re.search(r"<lat>([^<]+)</lat>", xml).group(1)) == round(lat, 6))
